@@ -74,9 +74,8 @@ theorem compute_point_identity {nc : ℕ} {a b : Obj} (_ha : GU nc a) (h0 : a.pa
   rw [h0] at this
   rw [ho, wf_zero this]
 
-theorem pointKey_eq (x : Obj) (hr : x.rational = false) :
-    (if x.rational then (x.cps.data.getD 0 []).dropLast else x.cps.data.getD 0 []) = pointKey x := by
-  simp [pointKey, hr]
+theorem pointKey_eq (x : Obj) :
+    (if x.rational then (x.cps.data.getD 0 []).dropLast else x.cps.data.getD 0 []) = pointKey x := rfl
 
 /-- the vertex entry for a key, when there is one -/
 theorem find_vert {nc : ℕ} {S : Obj → Prop} {m : Model} (hI : Inv nc S m) {x : Obj} (hx : GU nc x)
@@ -110,7 +109,7 @@ def pointNew (m : Model) (x : Obj) : Model × ℕ × Orientation :=
   let r := (bump m).newNode x [] (m.level 0).count
   ({ r.1 with verts := r.1.verts.push (pointKey x, r.2) }, r.2, Orientation.identity 0)
 
-theorem lookupPoint_eq (m : Model) (x : Obj) (add : Bool) (hr : x.rational = false) :
+theorem lookupPoint_eq (m : Model) (x : Obj) (add : Bool) :
     m.lookupPoint x add =
       if add then
         match (bump m).verts.find? (fun kv => kv.1 == pointKey x) with
@@ -122,7 +121,7 @@ theorem lookupPoint_eq (m : Model) (x : Obj) (add : Bool) (hr : x.rational = fal
         | none => .error .key := by
   unfold Model.lookupPoint pointNew bump
   dsimp only
-  rw [pointKey_eq x hr]
+  rw [pointKey_eq x]
   cases add <;> rfl
 
 /-- **`lookupPoint` (soundness).** -/
@@ -132,7 +131,7 @@ theorem lookupPoint_sound {nc : ℕ} {S : Obj → Prop} {m : Model} (hI : Inv nc
     (h : m.lookupPoint x add = .ok (m', id, o)) :
     Inv nc S m' ∧ Ext m m' ∧ Rep m' id x ∧ Orientation.compute (m'.node id).obj x = .ok o ∧
       (add = false → m' = m) := by
-  rw [lookupPoint_eq m x add hx.nonrat] at h
+  rw [lookupPoint_eq m x add] at h
   cases add with
   | false =>
     simp only [Bool.false_eq_true, if_false] at h
